@@ -107,6 +107,16 @@ func parseRace(report string) (key string, inLibrary bool, summary string) {
 			if strings.HasPrefix(fn, "runtime.") || strings.HasPrefix(fn, "sync.") || strings.HasPrefix(fn, "sync/atomic.") {
 				continue
 			}
+			if strings.HasPrefix(fn, "verif/sim/worlds/conc.own") {
+				// own() renders and then overwrites a value the library has
+				// just handed to this caller: a race there means the library
+				// gave the same memory to two callers
+				inLibrary = true
+				if top == "" {
+					top = "memory handed out by the library (caller-side use of a returned slice)"
+				}
+				break
+			}
 			if strings.HasPrefix(fn, "verif/") {
 				break
 			}
